@@ -152,11 +152,16 @@ def run(repo, rep, tier):
                      f"for {dw} // 2 larger than that, bins next to the seam are not averaged across it")
     # circularity test
     pad_nodes = [pads[k][0] for k in pads]
-    guards_ = [n for n in ast.walk(fi.node) if isinstance(n, ast.If) and isinstance(n.test, ast.Name) and pad_nodes
+    guards_ = [n for n in ast.walk(fi.node) if isinstance(n, ast.If) and isinstance(n.test, (ast.Name, ast.Compare)) and pad_nodes
                and all(any(pn is x for x in ast.walk(n)) for pn in pad_nodes)]
-    cname = guards_[0].test.id if guards_ else None
+    # innermost such guard
+    guards_ = [g for g in guards_ if not any(h is not g and any(h is x for x in ast.walk(g)) for h in guards_)]
+    cname = guards_[0].test.id if guards_ and isinstance(guards_[0].test, ast.Name) else None
     circ = [n for n in ast.walk(fi.node) if isinstance(n, ast.Assign) and isinstance(n.targets[0], ast.Name) and n.targets[0].id == cname
             and isinstance(n.value, ast.Compare)]
+    if guards_ and isinstance(guards_[0].test, ast.Compare):
+        # `if abs(coverage - 360) < tol: pad` without an intermediate flag
+        circ = [ast.copy_location(ast.Assign(targets=[ast.Name(id="<test>", ctx=ast.Store())], value=guards_[0].test), guards_[0])]
     if not circ:
         raise AnalysisError("smooth_spec: is_circular test not found")
     c = circ[0].value
